@@ -23,7 +23,7 @@ Fixpoint parse_picks (l : list value) : option (list (Z * Z)) :=
 
 Definition glue_intn (a o : list value) : option verdict :=
   match a, o with
-  | [VZ n; VZ c; VZ d; VL tp], [VZ cls; VZ v; VZ ncons; VZ lastw] =>
+  | [VZ n; VZ c; VZ d; VL tp], [VZ cls; VZ v; VZ ncons; VZ lastw; VZ reads] =>
       match getZs tp with
       | Some tape =>
           let exp := match rand_intn n (zb c) d tape with
@@ -32,7 +32,7 @@ Definition glue_intn (a o : list value) : option verdict :=
                      | Panic => [VZ 2; VZ 0; VZ 0]
                      | Hang => [VZ 3; VZ 0; VZ 0]
                      end in
-          let orc := if cls =? 0 then (if n <=? 0 then false else C15_intn_ok n lastw v)
+          let orc := if cls =? 0 then (if n <=? 0 then false else C15_intn_ok n lastw reads v)
                      else if cls =? 2 then n <=? 0      (* a panic only for n <= 0 *)
                      else if cls =? 1 then zb c         (* an error only with a cancelled context *)
                      else false in
@@ -44,7 +44,7 @@ Definition glue_intn (a o : list value) : option verdict :=
 
 Definition glue_sample (a o : list value) : option verdict :=
   match a, o with
-  | [VZ k; VZ n; VZ c; VZ d; VL tp], [VZ cls; VZ k'; VL pks; VZ ncons] =>
+  | [VZ k; VZ n; VZ c; VZ d; VL tp], [VZ cls; VZ k'; VL pks; VZ ncons; VZ reads] =>
       match getZs tp, parse_picks pks with
       | Some tape, Some picks =>
           let exp := match sample k n (zb c) d tape with
@@ -53,8 +53,8 @@ Definition glue_sample (a o : list value) : option verdict :=
                      | Panic => [VZ 2; VZ 0; VL []; VZ 0]
                      | Hang => [VZ 3; VZ 0; VL []; VZ 0]
                      end in
-          let obs := if cls =? 0 then o else [VZ cls; VZ 0; VL []; VZ 0] in
-          let orc := if cls =? 0 then (0 <=? k) && (0 <=? n) && C15_sample_ok k n k' picks
+          let obs := if cls =? 0 then [VZ cls; VZ k'; VL pks; VZ ncons] else [VZ cls; VZ 0; VL []; VZ 0] in
+          let orc := if cls =? 0 then (0 <=? k) && (0 <=? n) && C15_sample_ok k n k' picks reads
                      else if cls =? 2 then (k <? 0) || (n <? 0)
                      else if cls =? 1 then zb c
                      else false in
